@@ -122,198 +122,11 @@ type verif struct {
 	name    string
 	depth   int // 0: the checker itself, 1: a helper it hands the payload to
 	helpers map[*ast.CallExpr]*helperSum
+	defs    *defs
 }
 
 // rng is a sub-range [lo, hi) of the payload, both ends of the form a*len(d)+b.
 type rng struct{ la, lb, ha, hb int64 }
-
-// helperSum summarises a same-package helper f(d) that cuts the payload into
-// pieces and reports with a boolean whether it was long enough.
-type helperSum struct {
-	views map[int]rng    // result index -> piece, on the returns whose flag (if any) is true
-	okIdx int            // index of the "long enough" flag, -1 if the helper has none
-	okMin int64          // flag true (or: helper returned) => len(d) >= okMin
-	needs bool           // the helper slices without testing the length itself: its call must be guarded
-	vals  map[int]string // result index -> "ver" | "crc" | "dig": the helper decodes / digests itself and returns the value
-	acc   []access       // the helper's own role-playing reads of the payload (offsets in the same coordinates)
-}
-
-// tupleDef: o is defined exactly once, as the idx-th result of a call.
-func (v *verif) tupleDef(o types.Object) (call *ast.CallExpr, idx int, ok bool) {
-	if o == nil {
-		return nil, 0, false
-	}
-	n := 0
-	ast.Inspect(v.fn.Decl.Body, func(m ast.Node) bool {
-		if as, isAs := m.(*ast.AssignStmt); isAs {
-			for i, l := range as.Lhs {
-				if objOf(v.info, l) == o {
-					n++
-					if c, isCall := ast.Unparen(as.Rhs[0]).(*ast.CallExpr); isCall && len(as.Rhs) == 1 {
-						// several results, or the single result of a same-package helper
-						if f := core.CalleeFunc(v.info, c); len(as.Lhs) > 1 || f != nil && f.Pkg() == v.fn.Obj.Pkg() {
-							call, idx = c, i
-						}
-					}
-				}
-			}
-		}
-		return true
-	})
-	return call, idx, n == 1 && call != nil
-}
-
-func boolConst(info *types.Info, e ast.Expr) (val, ok bool) {
-	tv, has := info.Types[e]
-	if !has || tv.Value == nil {
-		return false, false
-	}
-	switch tv.Value.String() {
-	case "true":
-		return true, true
-	case "false":
-		return false, true
-	}
-	return false, false
-}
-
-// summary analyses the helper called with the whole payload as only argument.
-func (v *verif) summary(call *ast.CallExpr) *helperSum {
-	if s, done := v.helpers[call]; done {
-		return s
-	}
-	if v.helpers == nil {
-		v.helpers = map[*ast.CallExpr]*helperSum{}
-	}
-	v.helpers[call] = nil
-	f := core.CalleeFunc(v.info, call)
-	if v.depth > 0 || f == nil || f.Pkg() != v.fn.Obj.Pkg() || len(call.Args) != 1 {
-		return nil
-	}
-	if r, ok := v.rangeOf(call.Args[0]); !ok || r != (rng{0, 0, 1, 0}) {
-		return nil
-	}
-	hf := v.e.c.FnOf(f)
-	sig := f.Type().(*types.Signature)
-	if hf == nil || hf.Decl.Body == nil || sig.Params().Len() != 1 {
-		return nil
-	}
-	sub := &verif{e: v.e, fn: hf, info: hf.Pkg.TypesInfo, d: sig.Params().At(0), g: cfgq.Of(v.e.c.Program, hf), name: hf.Decl.Name.Name, depth: 1}
-	sum := &helperSum{views: map[int]rng{}, okIdx: -1}
-	for i := 0; i < sig.Results().Len(); i++ {
-		if b, ok := sig.Results().At(i).Type().Underlying().(*types.Basic); ok && b.Kind() == types.Bool {
-			if sum.okIdx >= 0 {
-				return nil
-			}
-			sum.okIdx = i
-		}
-	}
-	var trues []cfgq.Point
-	valid := true
-	for _, p := range sub.g.Points(func(n ast.Node) bool { _, ok := n.(*ast.ReturnStmt); return ok }) {
-		r := p.Node().(*ast.ReturnStmt)
-		if len(r.Results) != sig.Results().Len() {
-			return nil // bare return with named results: not followed
-		}
-		if sum.okIdx >= 0 {
-			flag, isC := boolConst(sub.info, r.Results[sum.okIdx])
-			if !isC {
-				return nil
-			}
-			if !flag {
-				continue
-			}
-		}
-		trues = append(trues, p)
-		for i, res := range r.Results {
-			if _, isSlice := sub.info.TypeOf(res).Underlying().(*types.Slice); !isSlice {
-				continue
-			}
-			piece, ok := sub.rangeOf(res)
-			if prev, seen := sum.views[i]; !ok || seen && prev != piece {
-				valid = false
-			}
-			sum.views[i] = piece
-		}
-	}
-	if !valid || len(trues) == 0 {
-		return nil
-	}
-	for k := int64(16); k >= 1 && sum.okMin == 0; k-- {
-		all := true
-		for _, p := range trues {
-			if ok, _ := onlyVia(sub.g, p, func(f cfgq.Fact) bool { return sub.lower(f) >= k }); !ok {
-				all = false
-			}
-		}
-		if all {
-			sum.okMin = k
-		}
-	}
-	// results that are values decoded / digested inside the helper
-	subAcc := sub.accesses()
-	sum.vals = map[int]string{}
-	for _, p := range trues {
-		r := p.Node().(*ast.ReturnStmt)
-		for i, res := range r.Results {
-			if _, isSlice := sub.info.TypeOf(res).Underlying().(*types.Slice); isSlice || i == sum.okIdx {
-				continue
-			}
-			e := res
-			if o := objOf(sub.info, strip(sub.info, res)); o != nil { // possibly a named result assigned once
-				e = origin(sub.info, hf.Decl.Body, res)
-			}
-			for _, a := range subAcc {
-				if a.call == nil && a.kind != "ver-lo" && a.kind != "ver-hi" {
-					continue
-				}
-				hit := false
-				ast.Inspect(e, func(n ast.Node) bool {
-					if a.call != nil && n == ast.Node(a.call) || a.call == nil && n == ast.Node(a.e) {
-						hit = true
-					}
-					return true
-				})
-				if hit {
-					switch a.kind {
-					case "ver-slice", "ver-lo", "ver-hi":
-						sum.vals[i] = "ver"
-					case "crc-slice":
-						sum.vals[i] = "crc"
-					case "covered":
-						sum.vals[i] = "dig"
-					case "bad", "unknown":
-						if _, set := sum.vals[i]; !set {
-							sum.vals[i] = "?"
-						}
-					}
-				}
-			}
-		}
-	}
-	for _, a := range subAcc {
-		if a.kind != "other" {
-			sum.acc = append(sum.acc, a)
-		}
-	}
-	// the helper's own slicing is protected by its own test, or the helper
-	// relies on its caller ("the caller guarantees len(d) >= ..."): then the call
-	// itself is an access that the caller's guard has to dominate
-	for _, a := range subAcc {
-		p, found := sub.g.Find(a.e)
-		if !found {
-			return nil
-		}
-		if ok, _ := onlyVia(sub.g, p, func(f cfgq.Fact) bool { return sub.lower(f) >= 10 }); !ok {
-			sum.needs = true
-		}
-	}
-	if sum.needs {
-		sum.okMin = 0
-	}
-	v.helpers[call] = sum
-	return sum
-}
 
 // rangeOf resolves e to a piece of the payload.
 func (v *verif) rangeOf(e ast.Expr) (rng, bool) {
@@ -340,8 +153,8 @@ func (v *verif) rangeOfN(e ast.Expr, depth int) (rng, bool) {
 			}
 			return rng{}, false
 		}
-		if rhs, other := defsOf(v.info, v.fn.Decl.Body, o); len(rhs) == 1 && other == 0 && rhs[0] != nil {
-			return v.rangeOfN(rhs[0], depth+1)
+		if def := v.defOf(o); def != nil {
+			return v.rangeOfN(def, depth+1)
 		}
 	case *ast.SliceExpr:
 		base, ok := v.rangeOfN(x.X, depth+1)
@@ -365,6 +178,16 @@ func (v *verif) rangeOfN(e ast.Expr, depth int) (rng, bool) {
 	return rng{}, false
 }
 
+func (v *verif) ds() *defs {
+	if v.defs == nil {
+		v.defs = &defs{info: v.info, body: v.fn.Decl.Body, g: v.g}
+	}
+	return v.defs
+}
+
+func (v *verif) defOf(o types.Object) ast.Expr { return v.ds().defOf(o) }
+func (v *verif) origin(e ast.Expr) ast.Expr    { return v.ds().origin(e) }
+
 // lin evaluates e as a*len(d) + b.
 func (v *verif) lin(e ast.Expr, depth int) (a, b int64, ok bool) {
 	if depth > 8 {
@@ -383,9 +206,9 @@ func (v *verif) lin(e ast.Expr, depth int) (a, b int64, ok bool) {
 		}
 	case *ast.Ident:
 		o := objOf(v.info, x)
-		if rhs, other := defsOf(v.info, v.fn.Decl.Body, o); o != nil && len(rhs) == 1 && other == 0 && rhs[0] != nil {
+		if def := v.defOf(o); o != nil && def != nil {
 			if _, _, isTuple := v.tupleDef(o); !isTuple {
-				return v.lin(rhs[0], depth+1)
+				return v.lin(def, depth+1)
 			}
 		}
 	case *ast.BinaryExpr:
@@ -701,7 +524,7 @@ func verifier(e *env, fn *core.Fn) {
 				switch be.Op {
 				case token.EQL, token.NEQ, token.LSS, token.GTR, token.LEQ, token.GEQ:
 					for _, side := range []ast.Expr{be.X, be.Y} {
-						ast.Inspect(origin(info, fn.Decl.Body, side), func(m ast.Node) bool {
+						ast.Inspect(v.origin(side), func(m ast.Node) bool {
 							if m == ast.Node(one.e) {
 								compared = true
 							}
@@ -758,7 +581,7 @@ func verifier(e *env, fn *core.Fn) {
 		if valRole(x) == "ver" {
 			return true
 		}
-		x = origin(info, fn.Decl.Body, x)
+		x = v.origin(x)
 		hit := false
 		ast.Inspect(x, func(n ast.Node) bool {
 			for _, k := range []string{"ver-slice", "ver-lo", "ver-hi"} {
@@ -781,7 +604,7 @@ func verifier(e *env, fn *core.Fn) {
 			if r := valRole(e); r != "" {
 				return r
 			}
-			switch o := origin(info, fn.Decl.Body, e); {
+			switch o := v.origin(e); {
 			case o == ast.Expr(crcCall):
 				return "crc"
 			case o == ast.Expr(digCall):
@@ -859,7 +682,7 @@ func verifier(e *env, fn *core.Fn) {
 			c.Okf("R3.verify", key("version-rejected"), pos, "success only when the trailer version is within the supported bound")
 		case inv:
 			c.Check("R3.verify", key("version-rejected"), pos, false, name+" succeeds exactly for versions ABOVE/other than the supported one: supported payloads are rejected, unsupported accepted", wV...)
-		case !anyVerAtom && hasVer:
+		case !anyVerAtom && hasVer && v.versionConfined(kinds, valRole):
 			c.Check("R3.verify", key("version-rejected"), pos, false, name+" never tests the trailer version: a payload carrying a version above the supported one is accepted", wV...)
 		default:
 			c.Undecidedf("R3.verify", key("version-rejected"), pos, "cannot see how the trailer version is restricted")
@@ -875,86 +698,4 @@ func verifier(e *env, fn *core.Fn) {
 		}
 	}
 	e.bounds = append(e.bounds, b)
-}
-
-// shiftApplied: the constant left shift applied to the byte e before it is
-// combined with the other version byte.
-func (v *verif) shiftApplied(e ast.Expr) (int64, bool) {
-	path := core.PathTo(v.fn.Decl.Body, e)
-	k := int64(0)
-	for i := len(path) - 2; i >= 0; i-- {
-		child := path[i+1]
-		switch x := path[i].(type) {
-		case *ast.ParenExpr:
-		case *ast.CallExpr:
-			if tv, ok := v.info.Types[x.Fun]; !ok || !tv.IsType() {
-				return 0, false
-			}
-		case *ast.BinaryExpr:
-			switch x.Op {
-			case token.SHL:
-				s, ok := core.IntConst(v.info, x.Y)
-				if !ok || x.X != child {
-					return 0, false
-				}
-				k += s
-			case token.OR, token.ADD, token.XOR:
-				return k, true
-			default:
-				return 0, false
-			}
-		default:
-			return 0, false
-		}
-	}
-	return 0, false
-}
-
-// hashObject: call is h.Write(x) on a local h that holds a fresh digest from a
-// checked constructor and is written exactly once; it returns the h.Sum64()
-// call that yields the digest of x, nil otherwise.
-func (v *verif) hashObject(call *ast.CallExpr) *ast.CallExpr {
-	sel, ok := ast.Unparen(call.Fun).(*ast.SelectorExpr)
-	if !ok || sel.Sel.Name != "Write" || len(call.Args) != 1 {
-		return nil
-	}
-	h := objOf(v.info, sel.X)
-	if h == nil {
-		return nil
-	}
-	rhs, other := defsOf(v.info, v.fn.Decl.Body, h)
-	if len(rhs) != 1 || other != 0 || rhs[0] == nil {
-		return nil
-	}
-	if nc, ok := ast.Unparen(rhs[0]).(*ast.CallExpr); !ok || !v.e.isNew(core.CalleeFunc(v.info, nc)) {
-		return nil
-	}
-	writes, var64 := 0, (*ast.CallExpr)(nil)
-	escapes := false
-	ast.Inspect(v.fn.Decl.Body, func(n ast.Node) bool {
-		c, ok := n.(*ast.CallExpr)
-		if !ok {
-			return true
-		}
-		if s2, ok := ast.Unparen(c.Fun).(*ast.SelectorExpr); ok && objOf(v.info, s2.X) == h {
-			switch s2.Sel.Name {
-			case "Write":
-				writes++
-			case "Sum64":
-				var64 = c
-			default:
-				escapes = true
-			}
-		}
-		for _, a := range c.Args {
-			if objOf(v.info, a) == h {
-				escapes = true
-			}
-		}
-		return true
-	})
-	if writes != 1 || escapes {
-		return nil
-	}
-	return var64
 }
